@@ -650,8 +650,10 @@ class RotationImplemented(BaseAlignmentModel):
             Result of alignment.
         """
         iopt, shift, _, corr = super().align(img, max_shifts, quaternion, pos, backend)
-        quat = self.quaternions[iopt % self._n_rotations]
-        return AlignmentResult(label=iopt, shift=shift, quat=quat, score=corr)
+        # candidates are ordered as (rot0, temp0), (rot0, temp1), ..., (rot1, temp0), ...
+        irot, itemp = divmod(iopt, self._n_templates)
+        quat = self.quaternions[irot]
+        return AlignmentResult(label=itemp, shift=shift, quat=quat, score=corr)
 
     def fit(
         self,
